@@ -13,7 +13,7 @@ vars == <<rules, req, i, result>>
 
 RuleLists == UNION { [1..n -> Rules] : n \in 1..MaxRules }
 
-Init == rules \in RuleLists /\ req \in ReqsR /\ i = 1 /\ result = 0
+Init == rules \in RuleLists /\ req \in ReqsR /\ Specified(rules, req) /\ i = 1 /\ result = 0
 EmitInit == rules \in RuleLists /\ req = (CHOOSE r \in ReqsR : TRUE) /\ i = 1 /\ result = 0
 
 (* ---- the decision of one rule, in the shape of the code *)
@@ -40,11 +40,23 @@ VarLoop(vs, rq, k, res, last) ==
        ELSE LET r2 == IF last = "and" THEN res /\ cur ELSE cur IN
               IF r2 /\ vs[k].m = "or" THEN TRUE ELSE VarLoop(vs, rq, k + 1, r2, vs[k].m)
 
+(* matchRoute: headers, then the query-parameter matchers (skipped when the request has no parameter at all) *)
+ImplQuery(rule, rq) ==
+  IF Len(rule.qs) = 0 \/ rq.query = "" THEN TRUE
+  ELSE LET one(k) == LET val == QPVal(rq.query, rule.qs[k].n) IN
+                       val # Absent /\ (IF rule.qs[k].re THEN ValRe(rule.qs[k].v, val) ELSE val = rule.qs[k].v)
+       IN IF "QueryAnyMatcher" \in Defects THEN \E k \in 1..Len(rule.qs) : one(k) ELSE \A k \in 1..Len(rule.qs) : one(k)
+
+(* DslExpressionRouteRuleImpl.Match: the expressions one after the other; an evaluation error or false ends the match *)
+ImplDsl(rule, rq) == \A k \in 1..Len(rule.ds) :
+                       LET r == Ev3(rule.ds[k], 1, rq).v IN IF "DslErrorHolds" \in Defects THEN r # "F" ELSE r = "T"
+
 ImplHolds(rule, rq) ==
-  CASE rule.k = "path"   -> ImplHeaders(rule, rq) /\ rq.path # <<>> /\ LowerP(rq.path) = LowerP(rule.pa)
-    [] rule.k = "prefix" -> ImplHeaders(rule, rq) /\ rq.path # <<>> /\
+  CASE rule.k = "path"   -> ImplHeaders(rule, rq) /\ ImplQuery(rule, rq) /\ rq.path # <<>> /\ LowerP(rq.path) = LowerP(rule.pa)
+    [] rule.k = "prefix" -> ImplHeaders(rule, rq) /\ ImplQuery(rule, rq) /\ rq.path # <<>> /\
                             (IF "PrefixAsContains" \in Defects THEN Contains(rule.pa, rq.path) ELSE IsPrefix(rule.pa, rq.path))
-    [] rule.k = "regex"  -> ImplHeaders(rule, rq) /\ rq.path # <<>> /\ PathRe(rule.re, rq.path)
+    [] rule.k = "regex"  -> ImplHeaders(rule, rq) /\ ImplQuery(rule, rq) /\ rq.path # <<>> /\ PathRe(rule.re, rq.path)
+    [] rule.k = "dsl"    -> ImplDsl(rule, rq)
     [] rule.k = "rpc"    -> ImplRpc(rule, rq)
     [] rule.k = "var"    -> VarLoop(rule.vs, rq, 1, TRUE, "and")
 
@@ -66,11 +78,36 @@ FirstWins  == Done => result = FirstMatch(rules, req)
 NoneOnlyIfNone == Done => (result = 0 <=> AllMatches(rules, req) = {})
 EarlierDoNotHold == result # 0 => \A k \in 1..(result - 1) : "LastMatchWins" \in Defects \/ ~RuleHolds(rules[k], req)
 
+(* ---- the key/value fast index, built rule by rule as addRouteBase does: a rule with exactly one exact header
+   criterion is entered under key -> value; intended design: an entry is never replaced, so the index answers
+   like the scan (first rule wins).  "LastIndexedWins": every later rule with the same key/value replaces it. *)
+RECURSIVE BuildIdx(_, _, _)
+BuildIdx(rs, k, m) ==
+  IF k > Len(rs) THEN m
+  ELSE LET c == Criteria(rs[k]) IN
+       IF Len(c) = 1 /\ ~c[1].re /\ <<c[1].n, c[1].v>> \in DOMAIN m
+       THEN BuildIdx(rs, k + 1, [m EXCEPT ![<<c[1].n, c[1].v>>] = IF @ = 0 \/ "LastIndexedWins" \in Defects THEN k ELSE @])
+       ELSE BuildIdx(rs, k + 1, m)
+KvIsFirstIndexed == (i = 1 /\ result = 0) =>
+                      LET m == BuildIdx(rules, 1, [kv \in KVs |-> 0]) IN \A kv \in KVs : m[kv] = KvSelect(rules, kv[1], kv[2])
+
+(* ---- the route handler on top of the scan: IsAvailable asks the cluster manager for the snapshot of the route's
+   cluster and reports "available" whatever it gets.  "SkipAbsentCluster": falls through to the next matching
+   route whose cluster exists. *)
+HandlerImpl(first, present) ==
+  IF "SkipAbsentCluster" \in Defects
+  THEN LET S == { k \in AllMatches(rules, req) : k \in present } IN
+         IF S = {} THEN [route |-> 0, snap |-> 0] ELSE LET f == CHOOSE k \in S : \A j \in S : k <= j IN [route |-> f, snap |-> f]
+  ELSE [route |-> first, snap |-> IF first \in present THEN first ELSE 0]
+HandlerIsMatchRoute == Done => \A P \in SUBSET (1..Len(rules)) : HandlerImpl(result, P) = HandlerWant(rules, req, P)
+
 (* ---- case emission: request universe and regex menus once, one line per rule list *)
 ASSUME PrintT(<<"CASE", ToJson([kind |-> "rreqs", reqs |-> ReqsR])>>)
 ASSUME PrintT(<<"CASE", ToJson([kind |-> "valre", vals |-> AllVals,
                                 menu |-> { [re |-> re, m |-> ValReSet(re)] : re \in ValRes }])>>)
 ASSUME PrintT(<<"CASE", ToJson([kind |-> "pathre", menu |-> { [re |-> re, p |-> rq.path, m |-> PathRe(re, rq.path)] :
                                                              re \in PathRes, rq \in { x \in ReqsR : x.path # <<>> } }])>>)
+ASSUME PrintT(<<"CASE", ToJson([kind |-> "kvs", kvs |-> { [key |-> kv[1], value |-> kv[2]] : kv \in KVs }])>>)
+ASSUME PrintT(<<"CASE", ToJson([kind |-> "qparse", menu |-> { [q |-> q, n |-> n, v |-> QPVal(q, n)] : q \in Queries, n \in {"q", "r"} }])>>)
 EmitCase == (i = 1 /\ result = 0) => PrintT(<<"CASE", ToJson([kind |-> "rules", rules |-> rules])>>)
 ====
